@@ -149,6 +149,31 @@ def oracle(acts, recs):
     return fails
 
 
+def oracle_collapse(acts, recs):
+    """registers too large for a dump: after measure_mask(m) = v the reported probabilities lie on the states that agree
+    with v on m, the same mask read again gives v again, and the total stays 1"""
+    fails = []
+    ms = [a[1] for a in acts if a[0] == "measure"]
+    mi = 0; last = None
+    for r in recs:
+        if r[0] == "m":
+            m = ms[mi]; mi += 1
+            if last is not None and last[0] == m and last[1] != r[1]:
+                fails.append("mask %#x read %#x and then %#x" % (m, last[1], r[1]))
+            if r[1] & ~m:
+                fails.append("outcome %#x outside the mask %#x" % (r[1], m))
+            last = (m, r[1])
+        elif r[0] == "p" and last is not None:
+            m, v = last
+            on = sum(x for i, x in enumerate(r[1]) if i & m == v)
+            if abs(on - 1) > 1e-9 or abs(sum(r[1]) - 1) > 1e-9:
+                fails.append("measured %#x under mask %#x, but the register reports %.6g of its probability on the states "
+                             "consistent with that value (total %.6g)" % (v, m, on, sum(r[1])))
+        elif r[0] in ("x", "died"):
+            fails.append("panic/abort %s" % (r,))
+    return fails
+
+
 def sampler_cases(rng, tier):
     cs = []
     for _ in range(300 if tier == "quick" else 3000):
@@ -200,6 +225,11 @@ if __name__ == "__main__":
     n, dis, recs = regcheck.run_histories(run, binary, hs, PROP, oracle,
                                           "C07 reported probabilities (model) / outcome frequencies (Born sums)",
                                           "C07_probabilities, C07_sampler_interval", deadline=240.0)
+    # registers of 15-16 qubits, serial and threaded (implementation only): a mask with the highest qubits read twice
+    wide = regcheck.wide_histories(run.rng, tier, lambda r, n_, hi: [("measure", (1 << hi[1]) | (1 << hi[2]) | 2), ("probs",),
+                                                                      ("measure", (1 << hi[1]) | (1 << hi[2]) | 2), ("probs",),
+                                                                      ("measure", 1 << hi[0]), ("probs",)])
+    n += regcheck.run_unmodelled(run, binary, wide, oracle_collapse)
     scs = sampler_cases(run.rng, tier)
     n2, dis2, _ = generic.run_generic(run, binary, "sampler", scs, ["RunReg"], PROP + "s",
                                       "Sampler.v vs rand::WeightedIndex under a scripted generator", "C07_sampler_interval")
